@@ -23,6 +23,11 @@ func (e *Exclamation) Evaluation(
 	t *base.T,
 ) (err error) {
 
+	// '!' binds tighter than anything that follows only while its own operand
+	// is parsed: the caller's precedence context comes back afterwards
+	prevLastCallT := p.LastCallT
+	defer func() { p.LastCallT = prevLastCallT }()
+
 	p.LastCallT = t.DeepCopy()
 
 	t, err = p.Read()
@@ -45,8 +50,10 @@ func (e *Exclamation) Evaluation(
 			return nil
 		}
 
+		// the comma belongs to the enclosing argument or element list
 		if t.IsCommaIdentifier() {
-			continue
+			p.Unget()
+			break
 		}
 
 		if t.GetPower() < 95 {
